@@ -10,6 +10,10 @@ EXPR_TECH = "TLA+ spec (spec/Expr.tla + spec/Rat.tla: expression trees, exact ra
 SD_TECH = "TLA+ spec (spec/SdModel.tla over spec/Rat.tla: explicit-Euler state machine with exact rational arithmetic, EulerRelation/FlowsNonNegative/GridExact checked by TLC); every TLC-generated trajectory replayed into the implementation and compared element by element at every grid time"
 SCN_TECH = "TLA+ spec (spec/Scenario.tla: managers, scenarios, settings, explicit object identity of points dictionaries, one session) + TLC exhaustive invariants/action properties; TLC-generated operation histories replayed into a real bptk object with the results of every scenario and of the base model compared after every action against a fresh computation carrying exactly the settings in force"
 CHECKS = {
+ "C09": dict(cat="model_checking", ref="6/C09",
+    text="spec/Session.tla: the session as a clock over the run; run-step / run-steps(n) / stream-steps as 1 / n / all-remaining steps with the same settings; TLC checks OnGrid, WithinRun, Euler and the action property AppendOnly (what was reported never changes: settings act from their step on) exhaustively and enumerates every partition of a run into up to 3-4 calls with per-call settings; each history is replayed through the Python session API and through the REST endpoints (run-step, run-steps, stream-steps, flat results, session-results, flat-session-results), for rotating subsets of requested equations, over two scenarios of which one never receives settings, on run specs with dt in {1,.5,.25} including start times that are not multiples of dt; batch results in df, dict, json and POST /run are compared with the closed form on the same grid",
+    note="ABM sessions are not covered; sessions after a restore are C20",
+    tech="TLA+ spec + TLC exhaustive; TLC-enumerated call partitions replayed through every channel with row-by-row comparison"),
  "C08": dict(cat="model_checking", ref="6/C08",
     text="spec/Memo.tla. Part 1: definitions carry version counters and memo cells record the versions they were computed with; TLC checks NoStale exhaustively over edit/evaluate histories (constant, stock initial value, flow and converter equations, first definition of a so far undefined input, cache reset); all short histories and long random ones are replayed on a real Model and every evaluation is compared with a freshly built model carrying the final definitions; runs are repeated with different equation lists. Part 2: memoize as Check / Compute / Store per worker thread over the shared cell of a stochastic element; TLC checks SingleValued over every interleaving of 2-3 threads; every emitted schedule is forced on the real Model.memoize by the line-level scheduler and the value each thread reports is compared with the value dependents consumed and with the memo; sequential consumers on decimal grids (t - dt chains) are checked for the same property. Both listed deviations (D08a, D08b) violate the invariants in the spec",
     note="anchors of Model.memoize found by text/regex; stochastic values are never compared with numbers, only for single-valuedness",
